@@ -92,7 +92,7 @@ def _is_zero(env, x):
 @harness(P,
          quick=[dict(method=m, k=k, g="2x2", nmax=3, chunk=c, nchunks=nc) for m, ks, nc in (("ptm1", (None, 1, 3), 4), ("ptm2", (1, 3), 6), ("ptm3", (None, 1, 2, 4), 1)) for k in ks for c in range(nc)] + [dict(method=m, k=2, g="3x2", nmax=2, chunk=0, nchunks=16, prelude=True) for m in ("ptm1", "ptm2")],
          thorough=[dict(method=m, k=1, g="3x2", nmax=2, chunk=c, nchunks=4, prelude=True) for m in ("ptm1", "ptm2") for c in range(4)] + [dict(method=m, k=k, g=g, nmax=2, chunk=c, nchunks=8) for m in ("ptm1", "ptm2", "ptm3") for k in (None, 1, 2, 3) for g in ("2x3", "3x2") for c in range(8)],
-         max_paths=60000, time_budget=560, hard_timeout=900, time_budget_thorough=3300, hard_timeout_thorough=3600, witnesses=3)
+         max_paths=60000, time_budget=420, hard_timeout=700, time_budget_thorough=3300, hard_timeout_thorough=3600, witnesses=3)
 def split(env, method, k, g, nmax, chunk=0, nchunks=1, prelude=False):
     """every partition bin is the input bin or 0; bins are not shared; conservation; requested count; wind sea by the
     wind-sea fraction rule; swells in non-increasing Hs with the dropped ones the smallest."""
